@@ -37,6 +37,7 @@ func (d Desc) String() string {
 var (
 	expFuture = time.Date(2100, 1, 1, 0, 0, 0, 0, time.UTC).Unix()
 	expPast   = time.Date(2001, 1, 1, 0, 0, 0, 0, time.UTC).Unix()
+	expSoon   = time.Date(2030, 1, 1, 0, 10, 0, 0, time.UTC).Unix()
 )
 
 const (
@@ -151,6 +152,10 @@ func (k *keyring) mint(d Desc) string {
 		cl["exp"] = expFuture
 	case "past":
 		cl["exp"] = expPast
+	case "soon":
+		// expires shortly after the manual clock's start, sooner than the JWT
+		// result cache's own lifetime (and still in the library's future)
+		cl["exp"] = expSoon
 	}
 
 	if d.Jti != "" {
